@@ -2,6 +2,8 @@
 
 use crate::engine::Run;
 
+pub mod c10;
+pub mod c11;
 pub mod c18;
 
 pub struct Prop {
@@ -13,6 +15,8 @@ pub struct Prop {
 
 pub fn all() -> Vec<Prop> {
     vec![
+        Prop { id: "C10", rule: c10::RULE, note: c10::NOTE, body: c10::run },
+        Prop { id: "C11", rule: c11::RULE, note: c11::NOTE, body: c11::run },
         Prop { id: "C18", rule: c18::RULE, note: c18::NOTE, body: c18::run },
     ]
 }
